@@ -315,7 +315,7 @@ def _execute(sc, sim, out):
             out.discarded = 'full-read-failed:' + pipe.exc_name(g)
             return
         G = [canon_record(x, meta=True) for x in g[1]]
-        sizes = wlog.get(sim.rel(p), [])
+        sizes = wlog.get(sim.token(p), [])
         cum = []
         t = 0
         for s in sizes:
